@@ -327,6 +327,49 @@ def run_retrain(rec, seed, shard, nshards, tier):
     core.hyp_run(rec, prop_retrain, retrain_cases(), n, seed)
 
 
+# ---------------------------------------------------------------- the command line tool gives what the library gives
+_CLI = [None]
+
+
+def prop_cli(case, rec):
+    """trainer.py run as a subprocess in a scratch copy of the working tree must write the same ruleset as run_trainer()."""
+    from .. import session
+    if _CLI[0] is None or not os.path.isdir(_CLI[0]):
+        _CLI[0] = session.copy_cli(session.make_root('c06cli'))
+    root = _CLI[0]
+    path, pws = write_list(case)
+    kw = dict(encoding='utf-8', coverage=case['coverage'], ngram=case['ngram'], alphabet_size=max(10, case['alphabet_size']))
+    out = os.path.join(_dir(), 'RL')
+    r = guard(case, trainer.train, path, out, save_sensitive=False, **kw)
+    import shutil
+    shutil.rmtree(os.path.join(root, 'Rules', 'T'), ignore_errors=True)
+    env = dict(os.environ, PYTHONUTF8='1', LC_ALL='C.UTF-8', PYTHONDONTWRITEBYTECODE='1', PYTHONWARNINGS='ignore')
+    cmd = [sys.executable, os.path.join(root, 'trainer.py'), '-t', path, '-r', 'T', '-e', 'utf-8', '-c', str(case['coverage']),
+           '-n', str(case['ngram']), '-a', str(kw['alphabet_size'])]
+    try:
+        p = subprocess.run(cmd, stdin=subprocess.DEVNULL, capture_output=True, text=True, env=env, cwd=root, timeout=600)
+    except subprocess.TimeoutExpired:
+        rec.skip('cli_timeout_inconclusive')
+        return
+    cli_dir = os.path.join(root, 'Rules', 'T')
+    cli_ok = os.path.exists(os.path.join(cli_dir, 'config.ini'))
+    rec.case({'entries': case['entries'][:4], 'coverage': case['coverage'], 'cli_rc': p.returncode}, len(case['entries']) >= 3, ['cli_trainer'], key=case)
+    if bool(r.ok) != cli_ok:
+        raise Violation('cli_completion', f'run_trainer() completed: {bool(r.ok)}, trainer.py wrote a ruleset: {cli_ok}; output tail: {p.stdout[-300:]}', case)
+    if not r.ok:
+        rec.skip('trainer_did_not_complete')
+        return
+    t1, t2 = tree(out), tree(cli_dir)
+    if t1 != t2:
+        diff = sorted(k for k in set(t1) | set(t2) if t1.get(k) != t2.get(k))
+        raise Violation('cli_differs_from_library', f'trainer.py and run_trainer() write different rulesets for the same input and options: {diff[:6]}', case)
+
+
+def run_cli(rec, seed, shard, nshards, tier):
+    n = {'quick': 3, 'thorough': 40}[tier]
+    core.hyp_run(rec, prop_cli, cases(), n, seed, shrink=(tier == 'thorough'))
+
+
 SIGMA_CASE = {'entries': [['\u039b\u038c\u0393\u039f\u03a3:Pass', 1], ['\u03bb\u03cc\u03b3\u03bf\u03c2', 2], ['password1', 6], ['monkey12', 5], ['iloveyou', 5]],
               'coverage': 0.6, 'ngram': 2, 'alphabet_size': 100}
 
@@ -340,4 +383,5 @@ PARTS = [
     Part('relative_frequency', run_main, prop, {'quick': 8, 'thorough': 16}),
     Part('subprocess_determinism', run_sub, prop_sub, {'quick': 4, 'thorough': 8}),
     Part('retrain_same_directory', run_retrain, prop_retrain, {'quick': 4, 'thorough': 8}),
+    Part('cli_trainer', run_cli, prop_cli, {'quick': 4, 'thorough': 8}),
 ]
